@@ -98,6 +98,11 @@ class ThermoWorld(World):
         self.externs['math.isclose'] = Builtin('isclose', self._isclose)
         self.externs['abc'] = Namespace('abc', {'ABCMeta': BuiltinClass('ABCMeta'),
                                                 'abstractmethod': Builtin('abstractmethod', lambda I, a, k: a[0])})
+        mapping = BuiltinClass('Mapping')
+        mapping.instancecheck = lambda I, v: isinstance(v, dict) or (isinstance(v, Obj) and (
+            v.cls.name in ('GroupsMapping', 'ContentsMap') or any(c.name == 'Mapping' for c in I.world.mro(v.cls))))
+        self.externs['collections.abc.Mapping'] = mapping
+        self.externs['collections.defaultdict'] = Builtin('defaultdict', lambda I, a, k: {})
         self.attr_hooks.append(self._spline_attr)
 
     def _R(self, I, a, k):
